@@ -7,7 +7,9 @@
 // routed (and serving its function), grant_types_supported vs. unsupported_grant_type,
 // S256, request objects. Part "issuer-flows" (c19_flows_test.go) decides the issuer clause
 // for every token-issuing flow x JWT kind x issuer strategy x Host x router with a
-// one-step history on the same instance. Three pure grids decide the constructor's issuer validation
+// one-step history on the same instance. Parts "request-object-shapes" and "pkce-honoured"
+// (c19_honoured_test.go) decide "advertised => honoured" over every carrying shape of the
+// request-object parameters and every client kind x challenge x verifier. Three pure grids decide the constructor's issuer validation
 // (static issuer strings, dynamic issuer paths) and client.Discover's issuer comparison.
 //
 // Isolation: op.NewProvider stores the POINTER op.DefaultEndpoints and the
@@ -1453,7 +1455,7 @@ func TestCheck(t *testing.T) {
 		return
 	}
 	c := engine.Start(t, "C19")
-	c.SetRule("E1: every case constructs a provider in an isolated worker process and probes it using only its discovery document; groups {flags,capabilities,router,probe} and {endpoint options,LegacyServer endpoints,issuer strategy,Host,router,probe} are full products crossed with every <=k deviations of the remaining dimensions; part issuer-flows: {flow, JWT kinds, one-step history, issuer strategy, Host, router} full product and {flow, kinds, history, router} x every <=k deviations of the rest (client authentication method, flags, capabilities, endpoints); three full grids for issuer strings, dynamic issuer paths and client.Discover; distinct = (part, oracle rule, observed outcome class)")
+	c.SetRule("E1: every case constructs a provider in an isolated worker process and probes it using only its discovery document; groups {flags,capabilities,router,probe} and {endpoint options,LegacyServer endpoints,issuer strategy,Host,router,probe} are full products crossed with every <=k deviations of the remaining dimensions; part issuer-flows: {flow, JWT kinds, one-step history, issuer strategy, Host, router} full product and {flow, kinds, history, router} x every <=k deviations of the rest (client authentication method, flags, capabilities, endpoints); parts request-object-shapes ({client_id, response_type, scope, redirect_uri, state, nonce} each carried outside / both / inside / differing / nowhere as a full product x router; sending and signing variants and issuer strategies against every <=k deviations of the rest) and pkce-honoured (client kind x challenge x verifier x carrier x GET/POST x request-object support x router full product; client x challenge x verifier x router x every <=k deviations of the rest); three full grids for issuer strings, dynamic issuer paths and client.Discover; distinct = (part, oracle rule, observed outcome class)")
 	c.Assume("refstore is a correct storage; clients web/webjwt/pub/jwt/svc are registered for the grants they use",
 		"an advertised URL is addressed relative to the issuer (the integrator mounts the handler below the issuer's path); an absolute override is addressed by its own path",
 		"the login UI returns to <authorization_endpoint>/callback as op.AuthCallbackURL / LegacyServer.AuthCallbackURL document",
@@ -1461,6 +1463,8 @@ func TestCheck(t *testing.T) {
 		"S256 not advertised: PKCE behaviour is recorded, not judged (the statement speaks about advertised methods only)",
 		"issuer-flows: the document's issuer is compared with the value the configured strategy documents for the request (static string; scheme+Host+path; Forwarded host, request Host as fallback); IssuerFromHost with a path without leading slash is Either",
 		"issuer-flows: every flow must issue its JWT kinds under the full configuration with client_secret_basic; refused under a reduced configuration or with another client authentication method: Either (recorded as flow-unavailable)",
+		"request objects: only shapes every implementation of OIDC Core 6.1 must take are judged (client_id outside and inside, response_type outside, scope with openid outside, a redirect_uri somewhere, advertised signing algorithm, confidential client); every other shape is recorded (Either)",
+		"PKCE: only challenges of methods listed in code_challenge_methods_supported are judged; the matching verifier must succeed only for clients whose authentication method is listed in token_endpoint_auth_methods_supported",
 		"package defaults are restored from a pristine copy before and after every construction; one provider per process at a time (C20's shared DefaultEndpoints pointer cannot leak between cases)")
 	if msg := pristineProblem(); msg != "" {
 		c.Internal(msg)
